@@ -158,6 +158,17 @@ CLAIMS = {
         note=TOPO_NOTE,
         technique="exceptional postconditions (raised => model unchanged) checked by bounded symbolic execution of the real API (pyvc)",
         design_ref="DESIGN.md section 3 C09"),
+    'C10': dict(category='other',
+        text="For 12 service types, slices with 0..3 connected interfaces from nodes whose sites are symbolic (every placement and "
+             "coincidence of sites), optional declared site, optional forbidden property and shared / dedicated ports are built "
+             "through the real API and validated by the real Topology.validate(); two-sided obligation against an oracle computed "
+             "from the PINNED constraint tables (min/max interfaces, sites spanned, declared-vs-inferred site, forbidden properties, "
+             "permitted interface types); a valid single-site service carries the inferred site; L2PTP refuses a shared port at "
+             "connect time. One defect repaired (declared site compared with itself).",
+        note=TOPO_NOTE + "PortMirror / P4 / OVS services and the node-type constraint rows are pinned but not exercised by a scenario; "
+             "num_instances is NO_LIMIT for every row, so the per-site instance rule is vacuous in the pinned table.",
+        technique="two-sided validation contracts against a pinned-table oracle, checked by bounded symbolic execution of the real API",
+        design_ref="DESIGN.md section 3 C10"),
     'C16': dict(
         text="For every label field the real Labels._set_fields is proved, for all strings, to accept exactly the documented domain "
              "(published pattern matched against the whole string with CPython regex semantics incl. Unicode classes, plus the "
